@@ -266,3 +266,25 @@ def nonempty(literals, max_states=60000):
                     return None, None
         queue = nxt
     return False, None
+
+
+def decide(literals, timeout_ms=20000):
+    """('sat', witness) | ('unsat', None) | ('unknown', None) for the intersection of the (complemented) languages:
+    derivatives first (a witness is re-validated by z3 on the concrete string), the SMT solver as fallback"""
+    ok, w = nonempty(literals)
+    if ok is False:
+        return "unsat", None
+    if ok is True:
+        sv = z3.StringVal(w)
+        if all(z3.is_true(z3.simplify(z3.InRe(sv, R))) == pos for R, pos in literals):
+            return "sat", w
+    x = z3.String("w")
+    s = z3.Solver()
+    s.set("timeout", timeout_ms)
+    for R, pos in literals:
+        s.add(z3.InRe(x, R) if pos else z3.Not(z3.InRe(x, R)))
+    r = s.check()
+    if r == z3.sat:
+        v = s.model()[x]
+        return "sat", _chars_of(v.as_string() if v is not None else "")
+    return ("unsat", None) if r == z3.unsat else ("unknown", None)
